@@ -21,6 +21,7 @@ class SimBus:
         self.fail_at = {}        # host name -> set of log indexes at which
         #                          the listen iterator raises once
         self.waiters = []        # asyncio futures to wake on publish
+        self.fail_publish = {}   # host name -> True: its next publish raises
 
     def publish(self, raw, origin=None, method=None):
         w = self.world
@@ -121,6 +122,9 @@ class SimPubSubManager(_HostEnd, socketio.PubSubManager):
         self._bus_init(bus, name, lag)
 
     def _publish(self, data):
+        if self.bus.fail_publish.pop(self.bus_name, None):
+            self.bus.world.rec.count('fault.publish_failure')
+            raise ConnectionError('injected publish failure')
         self.bus.publish(pickle.dumps(data), origin=self.bus_name,
                          method=data.get('method'))
 
@@ -150,6 +154,9 @@ class AsyncSimPubSubManager(_HostEnd, AsyncPubSubManager):
         self._bus_init(bus, name, lag)
 
     async def _publish(self, data):
+        if self.bus.fail_publish.pop(self.bus_name, None):
+            self.bus.world.rec.count('fault.publish_failure')
+            raise ConnectionError('injected publish failure')
         self.bus.publish(pickle.dumps(data), origin=self.bus_name,
                          method=data.get('method'))
 
